@@ -67,16 +67,16 @@ PROPS["C08"] = {
     "assumptions": ["ranges lie inside the mdat payload (the property's 'valid' ranges)"],
 }
 
-_BOX_UNMODELLED = ["boxes without a layout term (skeleton-only): sample entries, avcC/hvcC/av1C, esds descriptors, senc, sgpd/sbgp, uuid, emsg, elng, url/dref, schm, wvtt/stpp cue boxes, ilst/data, meta, trep, leva, ssix, kind, loudness, dac3/dec3, vpcC, SmDm, CoLL, subs, tfra: covered by the direct oracle (four code paths, masks from the committed list) only",
+_BOX_UNMODELLED = ["boxes without a layout term (skeleton-only): containers and sample entries, avcC/hvcC, esds descriptors, senc, sgpd, uuid, mdat, elng and `url ` (layout chosen by look-ahead on the payload), the tref child types (count = payload length / 4), colr/tfra/tlou/alou/dec3/silb/ssix (partly reserved bit fields or size-dependent acceptance), ilst/data (known finding), meta, trep, stpp/wvtt entries: covered by the direct oracle (four code paths, masks from the committed list) only",
                    "Info text", "File-level top loops (direct oracle on whole files, both decoders, both encoders, both modes)"]
 PROPS["C01"] = {
     "level": "proof",
     "technique": "Lean 4 proof (generic layout DSL: encode∘decode = id outside computed don't-care positions, fixed point) + model-vs-code correspondence on every box + committed don't-care list",
-    "level_text": "Generic theorems over the layout DSL (lean/Mp4ff/Model/Layout.lean) hold for every layout and every byte string; the 37 hand-modelled box layouts (Model/Boxes.lean) are tied to the Go decoders/encoders by the box.rt correspondence (accept/reject, Size(), re-encoded bytes) on every box of the repository's media and their structured mutations; all registered types and whole files go through the direct oracle with the committed don't-care list.",
+    "level_text": "Generic theorems over the layout DSL (lean/Mp4ff/Model/Layout.lean) hold for every layout and every byte string; the 64 hand-modelled box layouts (Model/Boxes.lean) are tied to the Go decoders/encoders by the box.rt correspondence (accept/reject, Size(), re-encoded bytes) on every box of the repository's media and their structured mutations; all registered types and whole files go through the direct oracle with the committed don't-care list.",
     "level_note": "Trusted: Lean kernel, allowed axioms, hand transcription of layouts validated by correspondence; unmodelled box types are covered by the direct oracle only (listed in the evidence).",
-    "trusted": ["Model/Layout.lean + Model/Boxes.lean: layout terms hand-transcribed from mp4/<box>.go for 37 box types, validated by the box.rt correspondence", "spec/C01-dontcare.json (committed list), audited against the model and the code"],
+    "trusted": ["Model/Layout.lean + Model/Boxes.lean: layout terms hand-transcribed from mp4/<box>.go for 64 box types, validated by the box.rt correspondence", "spec/C01-dontcare.json (committed list), audited against the model and the code"],
     "unmodelled": _BOX_UNMODELLED,
-    "partial": ["field-level model covers 37 of the registered box types; the rest are exercised by the direct oracle"],
+    "partial": ["field-level model covers 64 of the 134 registered box types; the rest are exercised by the direct oracle"],
     "assumptions": [],
 }
 PROPS["C02"] = {
@@ -84,7 +84,7 @@ PROPS["C02"] = {
     "technique": "Lean 4 proof (box tree: Size = length of encoding = header field, container = header + children; layout DSL size) + model-vs-code correspondence + regenerated source constants",
     "level_text": "Theorems in Props/C02.lean hold for every box tree (mutual structural induction); per-box sizes are tied by the box.rt correspondence (Go Size() vs model size on every case) and the direct oracle checks Size() before/after, bytes written, every header size field (independent box walker), encode twice with Info in between, io.Writer vs SliceWriter, on boxes, fragments, segments, init segments and files.",
     "level_note": "Trusted: Lean kernel, allowed axioms, transcription validated by correspondence.",
-    "trusted": ["Model/Layout.lean + Model/Boxes.lean: layout terms hand-transcribed from mp4/<box>.go for 37 box types, validated by the box.rt correspondence", "spec/C01-dontcare.json (committed list), audited against the model and the code"],
+    "trusted": ["Model/Layout.lean + Model/Boxes.lean: layout terms hand-transcribed from mp4/<box>.go for 64 box types, validated by the box.rt correspondence", "spec/C01-dontcare.json (committed list), audited against the model and the code"],
     "unmodelled": _BOX_UNMODELLED,
     "partial": [],
     "assumptions": [],
@@ -94,7 +94,7 @@ PROPS["C03"] = {
     "technique": "Lean 4 (kernel-decided obligations on facts regenerated from the two decoder registries) + four-path correspondence (DecodeBox/DecodeBoxSR x Encode/EncodeSW) against the single model",
     "level_text": "The model has one codec per box; the regenerated registry facts (same key set, DecodeX/DecodeXSR pairing) are kernel-checked on every run, and every case runs both Go decoders and both Go encoders and compares them with each other (bytes, error class, structure via Info, grouping and start positions at file level) and with the model.",
     "level_note": "Trusted: Lean kernel, the fact extractor (go/ast), correspondence harness.",
-    "trusted": ["Model/Layout.lean + Model/Boxes.lean: layout terms hand-transcribed from mp4/<box>.go for 37 box types, validated by the box.rt correspondence", "spec/C01-dontcare.json (committed list), audited against the model and the code"] + ["fact extractor /verif/extract (registry keys and decoder function names)"],
+    "trusted": ["Model/Layout.lean + Model/Boxes.lean: layout terms hand-transcribed from mp4/<box>.go for 64 box types, validated by the box.rt correspondence", "spec/C01-dontcare.json (committed list), audited against the model and the code"] + ["fact extractor /verif/extract (registry keys and decoder function names)"],
     "unmodelled": _BOX_UNMODELLED,
     "partial": ["interchangeability of the separately written Go pairs is established by correspondence, not by a Lean theorem about two transcriptions"],
     "assumptions": [],
